@@ -73,7 +73,7 @@ package authentication
 //@ havoc newVerifier
 //@ effect[C30:decoder-framing-matches-the-declared-mode] every newAwsChunkReadCloser(_, _, $ts, $sc, $prev, $v, $trail, $trailSig, $skip, $name)
 //@     where $trail == specHasTrailer(contentSHA256) && $trailSig == specSignedTrailer(contentSHA256) && $skip == specUnsignedChunks(contentSHA256) &&
-//@         $ts == parameters.timestamp && $sc == scope.value && $prev == parameters.signature
+//@         $ts == parameters.timestamp && $sc == scope.value && $prev == parameters.signature && $name == strings.ToLower($name)
 //@ effect[C30:decoder-only-after-the-request-signature-verified] every newAwsChunkReadCloser(__) needs before verifier.verify(_, _) -> ($ok) where $ok
 
 // One link of the signature chain: the chunk signature is verified over the string-to-sign of this chunk (previous
@@ -126,7 +126,10 @@ package authentication
 //@ mode effects
 //@ frame
 
+// (A declared checksum trailer is never silently skipped: with no hash to verify it against it is refused.)
 //@ func (*awsChunkReadCloser).validateTrailerChecksum
-//@ property C30
+//@ property C28 C30
 //@ mode effects
 //@ frame
+//@ ensures[C30:unverifiable-checksum-trailer-refused] r.trailerHasher == nil && strings.HasPrefix(r.trailerChecksumName, checksumTrailerPrefix) ==> err != nil
+
